@@ -162,6 +162,44 @@ def repeat_histories(rng, thorough):
     return out
 
 
+# ---------------------------------------------------------------- __EVAL / __EXEC that fails in a text that is not executed afterwards
+# The expression runs while the text is preprocessed; when it fails (runtime error, exit request, time limit) and the call then
+# executes nothing (load_config, type 'p', type '1', a text that does not parse), the instance must still be idle afterwards.
+EVAL_FAIL = ['1 + "a"', "[1] select 4", "exit__", "exitcode__ 2", "halt", "call { [] select 1 }", 'for "_i" from 1 to 1000000 do { zz = _i }']
+EVAL_OK = ["1 + 2", "count [1, 2]"]
+
+
+def evalfail_histories(rng, thorough):
+    out = []
+    shapes = [("L", "L", 'class VerifE%d { x = %s; y = 2; };'), ("p", "p", "a%d %s b"), ("1", "1", "w%d = 1; %s; 1"), ("s-parse-failure", "s", "w%d = %s +* 1")]
+    exprs = [(e, False) for e in EVAL_FAIL] + [(e, True) for e in EVAL_OK]
+    n = 0
+    for macro in ("__EVAL", "__EXEC"):
+        for e, ok in exprs:
+            if macro == "__EXEC" and not thorough and e not in ('1 + "a"', "exit__", "1 + 2"):
+                continue
+            limited = e.startswith("for ")
+            for shape, ty_, tmpl in shapes:
+                # one history per shape, so that each is judged whatever the others do
+                n += 1
+                g = rng.randint(2, 99)
+                h = Hist(); h.add(op="C", user=3, mr=250 if limited else 0)
+                h.add(op="K", h="0", cd=70, ty="s", text=("ga = %d" % g).encode(), cls="expect", expect=[])
+                text = (tmpl % (n, "%s(%s)" % (macro, e))).encode()
+                if ty_ == "L":
+                    h.add(op="L", h="0", text=text, cls="evalfail", classes=[], shape=shape, expr=e, succeeds=ok)
+                else:
+                    h.add(op="K", h="0", cd=72, ty=ty_, text=text, cls="evalfail", shape=shape, expr=e, succeeds=ok)
+                if rng.random() < 0.7:
+                    h.add(op="S", h="0")
+                h.add(op="K", h="0", cd=73, ty="s", text=b"diag_log [ga]; ga = ga + 1", cls="expect", expect=["[%d]" % g])
+                h.add(op="K", h="0", cd=74, ty=rng.choice(["s", "p", "1"]), text=b"diag_log [ga]", cls="expect", expect=None)
+                h.ops[-1].pop("expect")
+                h.add(op="S", h="0"); h.add(op="D", h="0")
+                out.append(("evalfail:%s:%s(%s)" % (shape, macro, e), h))
+    return out
+
+
 def add_self_ending(h, rng, i, cd):
     """a call that ends the run itself, a status query, and calls that read / write the globals afterwards"""
     nm, text, stand_in = self_ending(rng)
@@ -305,6 +343,7 @@ def main(replay=None):
             h.add(op="K", h="0", cd=22, ty="s", prog=Prog(E(Un("diag_log", Arr(Var("late"), Var("z"))))), cls="run"); h.add(op="D", h="0")
             hists.append(("multi:" + nm, h))
         hists += repeat_histories(rng, thorough)
+        hists += evalfail_histories(rng, thorough)
         for shape, ty_, text_, code_, pending_ in EVAL_SPAWN:
             h = Hist(); h.add(op="C", user=6, mr=0)
             h.add(op="K", h="0", cd=51, ty=ty_, text=text_, cls="evalspawn", shape=shape, code=code_)
@@ -375,6 +414,12 @@ def main(replay=None):
                     fr = "F-"
                 elif o.get("cls") in ("opaque", "asm-finding", "evalspawn", "evalspawn2", "expect", "warns") or (o.get("cls") == "selfend" and o.get("prog") is None):
                     fr = None
+                elif o.get("cls") == "evalfail":
+                    _, found = front(o)
+                    o["probe"] = found
+                    fr = None
+                    if found not in ("ok", "parsefail", "ppfail"):
+                        skip = "generator: the implementation's own front end did not survive %r: %s" % (o["text"], found)
                 else:
                     fr, found = front(o)
                     o["probe"] = found
@@ -479,6 +524,9 @@ def main(replay=None):
                     want = [0]
                 elif cls in ("expect", "warns"):
                     want = [0]
+                elif cls == "evalfail":
+                    # the documented code for what the front ends made of the text (a failing __EVAL expands to nothing)
+                    want = [{"ok": 0, "parsefail": -3, "ppfail": -2}[o["probe"]]]
                 elif o["op"] == "K" and o["ty"] not in TY and cls != "ppfail":
                     want = [-5]
                 elif o["op"] == "K" and o["ty"] == "p" and cls != "ppfail":
@@ -503,7 +551,7 @@ def main(replay=None):
                     # a stack trace / max-runtime diagnostic (the only fatal-level messages of a run) is logged exactly when a
                     # runtime error was not recovered by any handler resp. the run was cut: such a call did not run to completion
                     # without a runtime error, whichever script of the call it was and whatever the other scripts did afterwards
-                    if o["op"] == "K" and ret == 0 and any(int(r[2]) == 0 for r in recs):
+                    if o["op"] == "K" and cls != "evalfail" and ret == 0 and any(int(r[2]) == 0 for r in recs):
                         why = why or ("sqfvm_call returned 0 although the callback received the fatal stack trace of an unrecovered runtime error "
                                       "for this very call (0 is documented for `executed to completion without a runtime error`)")
                     if o["op"] == "P" and ret == 0:
